@@ -83,6 +83,10 @@ class C17(Prop):
                     order = list(range(len(L)))
                     rng.shuffle(order)
                     c["ranks"] = order
+                    if rng.random() < 0.5 and len(L) >= 2:
+                        # keys of mixed numeric types: an int for the first label, non-integral floats for the others
+                        # (several of them inside one unit interval)
+                        c["ranks"] = [order[0]] + [order[0] - 0.75 + 0.125 * k + (2 if k % 2 else 0) for k in order[1:]]
                 yield c
             elif r < 0.36:
                 arr["vkind"] = rng.choice(["f", "i"])
